@@ -123,6 +123,7 @@ class Grammar:
         self.alpha = list(alpha) if alpha is not None else None
         self.maxlen = maxlen
         self.extra = [list(x) for x in extra]
+        self.real_extra = []      # inputs run on the real parsers only (too long for model checking)
         self.meta = meta or {}
 
     def rule(self, name):
